@@ -179,3 +179,22 @@ _t_c01d = tasks
 def tasks(tier):
     # the liquidation fee arithmetic (8 min of path enumeration) is C05.c in the quick tier; C01 re-decides it in the thorough tier only
     return _t_c01d(tier) + [('collect_fees', t_collect_fees), ('bankruptcy', t_bankruptcy)] + ([('liquidation_fee', t_liquidation_fee)] if tier == 'thorough' else [])
+
+
+# ---------------------------------------------------------------- C01.e: interest accrual moves no tokens, so it must not let the books outgrow the vault (shared with C06.a / C06.c / C06.d)
+def _renamed01(task, frm, to):
+    def t(world):
+        obs = task(world)
+        for o in obs:
+            if o.oid.startswith(frm): o.oid = to + o.oid[len(frm):]
+            for c in o.cex:
+                if c.get('ob', '').startswith(frm): c['ob'] = to + c['ob'][len(frm):]
+        return obs
+    return t
+
+
+_t_c01e = tasks
+def tasks(tier):
+    import specs.C06 as C06
+    return _t_c01e(tier) + [('accrual_state_changes', _renamed01(C06.t_state_changes, 'C06.', 'C01.e.')), ('accrual_conservation', _renamed01(C06.t_lemma_chain, 'C06.', 'C01.e.')),
+                            ('accrual_booking', _renamed01(C06.t_accrue, 'C06.', 'C01.e.'))]
